@@ -63,6 +63,9 @@ PairStep(e) ==
 
 \* observation-relative batch: judged on the contents the code itself reports
 EntrySet(es) == SeqSet(es)
+PfxOf(o) == IF o = <<>> THEN <<>> ELSE <<o[1].p>>
+PfxsOf(s) == [i \in 1..Len(s) |-> s[i].p]
+ValsOf(s) == [i \in 1..Len(s) |-> s[i].v]
 ObsStep(e) ==
     LET E == EntrySet(e.E) IN
     /\ Cardinality(E) = Len(e.E)                             \* no key twice
@@ -74,8 +77,12 @@ ObsStep(e) ==
          /\ q.kv = AOptPV(E, q.q.n)
          /\ q.has = B2S(AHas(E, q.q.n))
          /\ q.lpm = ALpm(E, q.q)                             \* C02
+         /\ q.lpmp = PfxOf(ALpm(E, q.q))                     \*   get_lpm_prefix
          /\ q.spm = ASpm(E, q.q)                             \* C09
+         /\ q.spmp = PfxOf(ASpm(E, q.q))                     \*   get_spm_prefix
          /\ q.cover = ACover(E, q.q)
+         /\ q.ck = PfxsOf(ACover(E, q.q))                    \*   cover_keys
+         /\ q.cv = ValsOf(ACover(E, q.q))                    \*   cover_values
          /\ q.children = AChildren(E, q.q)                   \* C10
     /\ UNCHANGED <<mA, mB, drift>>
 
@@ -109,6 +116,8 @@ Expected(e) ==
                    LET q == e.qs[i] IN
                    [q |-> q.q, get |-> AVal(E, q.q.n), kv |-> AOptPV(E, q.q.n), has |-> B2S(AHas(E, q.q.n)),
                     lpm |-> ALpm(E, q.q), spm |-> ASpm(E, q.q), cover |-> ACover(E, q.q),
+                    lpmp |-> PfxOf(ALpm(E, q.q)), spmp |-> PfxOf(ASpm(E, q.q)),
+                    ck |-> PfxsOf(ACover(E, q.q)), cv |-> ValsOf(ACover(E, q.q)),
                     children |-> AChildren(E, q.q)]]]
     ELSE IF e.a \in PairObservers THEN
         [kind |-> "pair", ret |-> PairObserve(mA, mB, e),
